@@ -1068,6 +1068,41 @@ def asset_lines(h, count_tokens=True, skip_served=False):
     return out
 
 
+def stale_snapshot_copy(h, upto, p, kind, uuid, final_hash):
+    """recorded finding D17, recognised by its history: the last announcement of the uuid that peer p received advertises
+    the host's own endpoint (a snapshot entry), p had received the owner's announcement in the same or the previous
+    frame, the host itself received that owner's announcement no earlier than two frames before it built the snapshot,
+    and what p ends with is what the host held when it built the snapshot"""
+    owner_urls = set()
+    host_recv = []      # (event index, url) of owner announcements received by the host
+    for k, e in enumerate(h.events[:upto]):
+        if e["ev"] == "frame" and e["peer"] == 0:
+            for m in e["recv"]:
+                if m["msg"]["k"] == kind and m["msg"]["id"] == uuid:
+                    owner_urls.add(m["msg"]["url"])
+                    host_recv.append((k, m["msg"]["url"]))
+    got = []            # (event index, url) received by p
+    for k, e in enumerate(h.events[:upto]):
+        if e["ev"] == "frame" and e["peer"] == p:
+            for m in e["recv"]:
+                if m["msg"]["k"] == kind and m["msg"]["id"] == uuid:
+                    got.append((k, m["msg"]["url"]))
+    if len(got) < 2 or got[-1][1] in owner_urls or got[-2][1] not in owner_urls:
+        return False
+    # the host's copy when it built the snapshot = its copy at its last frame before p received the entry
+    # the host's copy when it built p's snapshot: its state at the end of the frame in which it received p's request
+    hst = None
+    for k, e in enumerate(h.events[:got[-1][0]]):
+        if e["ev"] == "frame" and e["peer"] == 0 and e.get("state") and any(m["msg"]["k"] == "reqsync" and m.get("from") == p for m in e["recv"]):
+            hst = e["state"]
+    if hst is None:
+        return False
+    held = (hst["assets"].get(kind) or {}).get(uuid)
+    pframes = [k for k, e in enumerate(h.events[:got[-1][0] + 1]) if e["ev"] == "frame" and e["peer"] == p]
+    near = len([k for k in pframes if got[-2][0] <= k <= got[-1][0]]) <= 2
+    return near and held == final_hash and final_hash != (last_state(h, upto, 0)["assets"].get(kind) or {}).get(uuid)
+
+
 def oracle_join(h):
     """C03: at the final quiescent drain every connected client — newcomers and returners in particular — holds what
     the host holds: synchronized entities by uuid (none twice), registered component values, parent links, uuid
@@ -1100,8 +1135,28 @@ def oracle_join(h):
         extra = [u[:8] for u in ps if u not in hs]
         if missing:
             fails.append(("C03", "%s %d lacks synchronized entities the host holds" % (who, p), {"uuids": missing[:6]}))
+        away_despawned = set()
+        li = 0
+        if who == "returning client":
+            # uuids despawned by some application between this client's leaving and its return (recorded finding D16)
+            binds = {b["h"]: b["uuid"] for b in h.events if b["ev"] == "bind"}
+            li = next(k for k, e in enumerate(h.events) if e["ev"] == "left" and e.get("peer") == p)
+            ri = next(k for k, e in enumerate(h.events) if e["ev"] == "join_begin" and e["peer"] == p)
+            # "away" lasts until the host builds this client's snapshot (until then no broadcast is sure to reach it)
+            for k in range(ri, len(h.events)):
+                e = h.events[k]
+                if e["ev"] == "frame" and e["peer"] == 0 and any(m["msg"]["k"] == "reqsync" and m.get("from") == p for m in e["recv"]):
+                    ri = k
+                    break
+            for e in h.events[li:ri]:
+                if e["ev"] == "op" and e["op"] in ("despawn", "despawn_cmd") and e.get("done", True) and e["h"] in binds:
+                    away_despawned.add(binds[e["h"]])
         if extra:
-            fails.append(("C03", "%s %d holds synchronized entities the host does not (any more)" % (who, p), {"uuids": extra[:6]}))
+            full = [u for u in ps if u not in hs]
+            if who == "returning client" and all(u in away_despawned for u in full):
+                fails.append(("C03", "%s %d still holds synchronized entities that were despawned while it was away" % (who, p), {"uuids": extra[:6]}))
+            else:
+                fails.append(("C03", "%s %d holds synchronized entities the host does not (any more)" % (who, p), {"uuids": extra[:6]}))
         regs = set(cfg.get(0, {}).get("registered", [])) & set(cfg.get(p, {}).get("registered", []))
         for u in hs:
             if u not in ps:
@@ -1116,8 +1171,21 @@ def oracle_join(h):
                     break
             # a Parent pointing at something that is not a synchronized entity (e.g. left dangling by a despawn) is not a replicated link
             pa_, pb_ = (None if a["parent"] == "unsynced" else a["parent"]), (None if b["parent"] == "unsynced" else b["parent"])
-            if pa_ != pb_:
-                fails.append(("C03", "%s %d has a different parent link than the host" % (who, p), {"uuid": u[:8], "host": a["parent"], "peer": b["parent"]}))
+            # links of clients that were connected all along are C05's subject (and an application that re-parents under an
+            # entity it despawns before the link was announced leaves them different by its own doing)
+            if pa_ != pb_ and p in comers:
+                held_when_left = None
+                if who == "returning client":
+                    stl = last_state(h, li, p)
+                    el = ent_of(stl, u) if stl else None
+                    held_when_left = el["parent"] if el else None
+                if pa_ is None and pb_ in away_despawned:
+                    fails.append(("C03", "%s %d keeps a child under an entity that was despawned while it was away" % (who, p), {"uuid": u[:8], "peer": b["parent"]}))
+                elif who == "returning client" and pa_ is None and pb_ is not None and pb_ == held_when_left:
+                    # the host's link went away (its parent was despawned later, the child left dangling): the snapshot cannot say so
+                    fails.append(("C03", "%s %d keeps a parent link the host dropped while it was away" % (who, p), {"uuid": u[:8], "peer": b["parent"]}))
+                else:
+                    fails.append(("C03", "%s %d has a different parent link than the host" % (who, p), {"uuid": u[:8], "host": a["parent"], "peer": b["parent"]}))
         for kind, sw in (("material", "materials"), ("image", "materials"), ("mesh", "meshes"), ("audio", "audios")):
             if not (cfg.get(0, {}).get(sw) and cfg.get(p, {}).get(sw)):
                 continue
@@ -1127,6 +1195,63 @@ def oracle_join(h):
                     fails.append(("C03", "%s %d lacks a uuid %s the host holds" % (who, p, kind), {"uuid": u[:8]}))
                     break
                 if pa[u] != hsh:
-                    fails.append(("C03", "%s %d holds a uuid %s whose content differs from the host's" % (who, p, kind), {"uuid": u[:8]}))
+                    if p in comers and kind != "material" and stale_snapshot_copy(h, i, p, kind, u, pa[u]):
+                        fails.append(("C03", "%s %d ends with the host's outdated copy of a uuid %s: its snapshot was built while the host was still downloading a newer publication it had already relayed" % (who, p, kind), {"uuid": u[:8]}))
+                    else:
+                        fails.append(("C03", "%s %d holds a uuid %s whose content differs from the host's" % (who, p, kind), {"uuid": u[:8]}))
                     break
     return fails
+
+
+def snap_lines(h):
+    """the joiner's side of every (entity, component) key: the messages it really received, in order, handled by the
+    model's `recv`; replica / value / count compared after every frame of the joiner"""
+    out = []
+    comers = [e["peer"] for e in h.events if e["ev"] == "join_begin"]
+    path_ty = {v: k for k, v in h.types.items()}
+    for j in comers:
+        start = next(i for i, e in enumerate(h.events) if e["ev"] == "join_begin" and e["peer"] == j)
+        st0 = last_state(h, start, j) or {"ents": []}
+        keys = {}      # (uuid, ty) -> {"script": [...], "vals": {bytes: n}, "bad": bool}
+        deleted = set()
+        def key(u, ty):
+            k = keys.get((u, ty))
+            if k is None:
+                e0 = ent_of(st0, u)
+                k = {"script": [], "vals": {}, "p0": 1 if e0 is not None else 0, "v0": None}
+                if e0 is not None and e0["comps"].get(ty) is not None:
+                    k["v0"] = k["vals"].setdefault(e0["comps"][ty], len(k["vals"]) + 1)
+                keys[(u, ty)] = k
+            return k
+        # every key the joiner or the host ever holds
+        for e in h.events[start:]:
+            if e["ev"] == "frame" and e["peer"] in (0, j) and e.get("state"):
+                for en in e["state"]["ents"]:
+                    for ty in en["comps"]:
+                        if ty in h.registered:
+                            key(en["uuid"], ty)
+        for e in h.events[start:]:
+            if e["ev"] != "frame" or e["peer"] != j:
+                continue
+            for m in e["recv"]:
+                mm = m["msg"]
+                if mm["k"] == "delete":
+                    deleted.add(mm["id"])
+                for (u, ty), k in keys.items():
+                    if mm["k"] == "spawn" and mm["id"] == u:
+                        k["script"].append("s")
+                    elif mm["k"] == "comp" and mm["id"] == u and path_ty.get(mm["name"]) == ty:
+                        # the value as the receiver will hold it: reflect bytes of the message are the component's bytes
+                        k["script"].append("u:%d" % k["vals"].setdefault(mm["data"], len(k["vals"]) + 1))
+            if e.get("state") is None:
+                continue
+            for (u, ty), k in keys.items():
+                en = [x for x in e["state"]["ents"] if x["uuid"] == u]
+                v = en[0]["comps"].get(ty) if en else None
+                k["script"].append("f")
+                k["script"].append("x:%d:%s:%d" % (1 if en else 0, "-" if v is None else str(k["vals"].get(v, 999)), len(en)))
+        for (u, ty), k in keys.items():
+            if u in deleted or not any(t in ("s",) or t.startswith("u:") for t in k["script"]):
+                continue
+            out.append("snapj %s/%d.%s.%s %d %s %s" % (h.id, j, u[:8], ty, k["p0"], "-" if k["v0"] is None else str(k["v0"]), ";".join(k["script"])))
+    return out
